@@ -135,8 +135,8 @@ let dispatch cmd a =
   | "dec_vlrs" -> dec_vlrs (ext 0) (int_of_string a.(1)) (bytes_of_tok a.(2))
   | "enc_vlr" -> res tok_of_bytes (spec_enc_vlr_header (ext 0) (vals_of_tok a.(1)))
   | "ebd_names" -> names_tok spec_eb_descriptor
-  | "dec_ebd" -> dec_out (spec_dec_eb_descriptor (bytes_of_tok a.(1)))
-  | "enc_ebd" -> res tok_of_bytes (spec_enc_eb_descriptor (vals_of_tok a.(1)))
+  | "dec_ebd" -> dec_out (spec_dec_eb_descriptor (bytes_of_tok a.(0)))
+  | "enc_ebd" -> res tok_of_bytes (spec_enc_eb_descriptor (vals_of_tok a.(0)))
   | _ -> "unknown-command " ^ cmd
 
 let () =
